@@ -93,7 +93,7 @@ class RegionRecorder:
         for r, cells in enumerate(self.regions):
             for cell, its in cells.items():
                 if len(its) > 1:
-                    out.append(dict(region=r, cell=[int(c) for c in cell], iterations=sorted(int(i) for i in its), nonzero={int(i): bool(v[1]) for i, v in its.items()}))
+                    out.append(dict(region=r, cell=[c if isinstance(c, str) else int(c) for c in cell], iterations=sorted(int(i) for i in its), nonzero={int(i): bool(v[1]) for i, v in its.items()}))
         return out
 
     def stats(self):
